@@ -126,7 +126,7 @@ P("C12",
   level_text=("Theorems (Props/C12.v): for every table of expressions and registry content the parser model never runs out of fuel (C12_parser_total), agrees with the nesting model on error flag, counters and position from any snapshot (C12_parser_refines_nesting) and accepts a cleaned source iff all its tags are closed and its block tags are balanced (C12_parser_accepts_iff_nested); parse_skel sk = true <-> balanced sk = true <-> the grammar, for every tag word; the scanner's tokens concatenate back to the source, an unterminated tag yields the EOF error, the fuel |src|+1 always suffices; the matcher answers 'match' iff a substring belongs to the expression and reports the leftmost start (C12_matcher_spec, C12_matcher_leftmost). "
               "Each run regenerates the 45 expressions from the source, re-proves their side condition (now_table_ok), and puts every Parse call of the run to the parser model: about 3 700 sources in the quick tier (skeletons to depth 5 with every single block-tag deletion, insertions and swaps, deep nests to 24, spellings, unterminated tags, all argument lists over an 11-symbol alphabet up to length 4, 600 mutated sources), tree for tree or refusal for refusal; 1 500 (expression, subject) pairs against Go's regexp; the real acceptance against the Dyck predicate; panic/hang oracle on the fuzz stream."),
   level_note="What stays outside the proof: that Model/Regex.v agrees with Go's regexp on priorities and captures (covered by the matcher correspondence and, through the trees, by the parser correspondence), the translator harness/regexgen.go (trusted; a wrong translation shows as a correspondence failure on the unchanged tree), and the real parser's behaviour on bytes no run has tried (the correspondence is differential testing; 24 000 fuzzed sources agreed during development). Panics and hangs of the Go code are observed, not modelled.",
-  design_ref="5 C12 and 11.12", trusted_base=[KERNEL, VMODE, HARNESS,
+  design_ref="5 C12 and 11.11", trusted_base=[KERNEL, VMODE, HARNESS,
       "translator harness/regexgen.go (go/ast + regexp/syntax -> Model/Regex.v terms), re-run on /repo's source on every run",
       "modelled, not verified: Go's regexp engine (Model/Regex.v, byte-level leftmost-first backtracking; tied by the matcher and parser correspondences), bytealg.Trim / bytes.Split / strconv.Atoi as transcribed in Model/Parser.v, the registries' answers at parse time (names read through the hook VerifRegistryNames)"],
   assumptions=["every literal and positive class of the parser's expressions is ASCII and '.'/negated classes occur only under * and + (checked by the translator and by now_table_ok on every run), so matching bytes instead of runes gives the same boundaries"])
